@@ -45,7 +45,7 @@ def OnClock (c : Clk) (s : S) : Prop := ∀ e ∈ s.pend, e.clk = c
 def drawIdxs (g : Nat) (trace : List Ev) : List Nat :=
   trace.reverse.filterMap fun e =>
     match e with
-    | .draw _ g' i => if g' = g then some i else none
+    | .draw _ g' _ i => if g' = g then some i else none
     | _ => none
 
 end Sc3Verif.C10
